@@ -7,6 +7,7 @@
    6.2.5.1 special opcodes (operation advance, VLIW op_index arithmetic)
    6.2.5.2 standard opcodes 1..12
    6.2.5.3 extended opcodes 1..4; any other extended opcode is skipped by its length *)
+From Coq Require Export String.
 From PV Require Export Base.Bytes Spec.PrimSpec.
 
 (* the header fields the machine reads (6.2.4) *)
@@ -315,3 +316,16 @@ Definition wf_instr (c : lcfg) (p : lparams) (i : instr) : bool :=
 Definition encode_prog (c : lcfg) (prog : list (instr * nat * nat)) : list Z :=
   concat (map (fun '(i, k, kl) => encode_instr c i k kl) prog).
 Definition wf_prog (c : lcfg) (p : lparams) (prog : list instr) : bool := forallb (wf_instr c p) prog.
+
+(* ------------------------------------------------------------------ the standard's numbering *)
+(* DWARF 5 Table 7.25 (standard opcodes) and Table 7.26 (extended opcodes; 0x03 is the
+   DW_LNE_define_file of DWARF 2-4, reserved in DWARF 5) *)
+Local Open Scope string_scope.
+Definition spec_lns : list (string * Z) := [
+  ("DW_LNS_copy", 0x01); ("DW_LNS_advance_pc", 0x02); ("DW_LNS_advance_line", 0x03);
+  ("DW_LNS_set_file", 0x04); ("DW_LNS_set_column", 0x05); ("DW_LNS_negate_stmt", 0x06);
+  ("DW_LNS_set_basic_block", 0x07); ("DW_LNS_const_add_pc", 0x08); ("DW_LNS_fixed_advance_pc", 0x09);
+  ("DW_LNS_set_prologue_end", 0x0a); ("DW_LNS_set_epilogue_begin", 0x0b); ("DW_LNS_set_isa", 0x0c)].
+Definition spec_lne : list (string * Z) := [
+  ("DW_LNE_end_sequence", 0x01); ("DW_LNE_set_address", 0x02); ("DW_LNE_define_file", 0x03);
+  ("DW_LNE_set_discriminator", 0x04); ("DW_LNE_lo_user", 0x80); ("DW_LNE_hi_user", 0xff)].
